@@ -23,6 +23,10 @@ func AssignValue(src, dst reflect.Value) error {
 }
 
 func castValue(t reflect.Type, v reflect.Value) (reflect.Value, error) {
+	if !v.IsValid() {
+		// a nil source (JSON null): the zero value of the destination type
+		return reflect.Zero(t), nil
+	}
 	switch t.Kind() {
 	case reflect.Int:
 		vv, err := castInt(v)
@@ -107,6 +111,9 @@ func castValue(t reflect.Type, v reflect.Value) (reflect.Value, error) {
 }
 
 func castInt(v reflect.Value) (reflect.Value, error) {
+	if !v.IsValid() {
+		return nilValue, fmt.Errorf("failed to cast from nil")
+	}
 	switch v.Type().Kind() {
 	case reflect.Int, reflect.Int8, reflect.Int16, reflect.Int32, reflect.Int64:
 		return v, nil
@@ -148,6 +155,9 @@ func castInt(v reflect.Value) (reflect.Value, error) {
 }
 
 func castUint(v reflect.Value) (reflect.Value, error) {
+	if !v.IsValid() {
+		return nilValue, fmt.Errorf("failed to cast from nil")
+	}
 	switch v.Type().Kind() {
 	case reflect.Int, reflect.Int8, reflect.Int16, reflect.Int32, reflect.Int64:
 		return reflect.ValueOf(uint64(v.Int())), nil
@@ -189,6 +199,9 @@ func castUint(v reflect.Value) (reflect.Value, error) {
 }
 
 func castString(v reflect.Value) (reflect.Value, error) {
+	if !v.IsValid() {
+		return nilValue, fmt.Errorf("failed to cast from nil")
+	}
 	switch v.Type().Kind() {
 	case reflect.Int, reflect.Int8, reflect.Int16, reflect.Int32, reflect.Int64:
 		return reflect.ValueOf(fmt.Sprint(v.Int())), nil
@@ -226,6 +239,9 @@ func castString(v reflect.Value) (reflect.Value, error) {
 }
 
 func castBool(v reflect.Value) (reflect.Value, error) {
+	if !v.IsValid() {
+		return nilValue, fmt.Errorf("failed to cast from nil")
+	}
 	switch v.Type().Kind() {
 	case reflect.Int, reflect.Int8, reflect.Int16, reflect.Int32, reflect.Int64:
 		switch v.Int() {
@@ -282,6 +298,9 @@ func castBool(v reflect.Value) (reflect.Value, error) {
 }
 
 func castFloat(v reflect.Value) (reflect.Value, error) {
+	if !v.IsValid() {
+		return nilValue, fmt.Errorf("failed to cast from nil")
+	}
 	switch v.Type().Kind() {
 	case reflect.Int, reflect.Int8, reflect.Int16, reflect.Int32, reflect.Int64:
 		return reflect.ValueOf(float64(v.Int())), nil
@@ -323,6 +342,9 @@ func castFloat(v reflect.Value) (reflect.Value, error) {
 }
 
 func castArray(t reflect.Type, v reflect.Value) (reflect.Value, error) {
+	if !v.IsValid() {
+		return reflect.Zero(t), nil
+	}
 	kind := v.Type().Kind()
 	if kind == reflect.Interface {
 		return castArray(t, reflect.ValueOf(v.Interface()))
@@ -348,6 +370,9 @@ func castArray(t reflect.Type, v reflect.Value) (reflect.Value, error) {
 }
 
 func castSlice(t reflect.Type, v reflect.Value) (reflect.Value, error) {
+	if !v.IsValid() {
+		return reflect.Zero(t), nil
+	}
 	kind := v.Type().Kind()
 	if kind == reflect.Interface {
 		return castSlice(t, reflect.ValueOf(v.Interface()))
@@ -370,6 +395,9 @@ func castSlice(t reflect.Type, v reflect.Value) (reflect.Value, error) {
 }
 
 func castMap(t reflect.Type, v reflect.Value) (reflect.Value, error) {
+	if !v.IsValid() {
+		return reflect.Zero(t), nil
+	}
 	ret := reflect.MakeMap(t)
 	switch v.Type().Kind() {
 	case reflect.Map:
@@ -398,6 +426,9 @@ func castMap(t reflect.Type, v reflect.Value) (reflect.Value, error) {
 }
 
 func castStruct(t reflect.Type, v reflect.Value) (reflect.Value, error) {
+	if !v.IsValid() {
+		return reflect.Zero(t), nil
+	}
 	ret := reflect.New(t).Elem()
 	switch v.Type().Kind() {
 	case reflect.Map:
